@@ -18,8 +18,13 @@ SPEC = {
             "model-independent expected-decode oracle whose expected values are computed from the data types' definitions "
             "(big-endian / two's-complement number of all the field's octets, math/big), not from Interpret; interp: "
             "ipfix.Interpret alone on every FieldType x every field length 0..20 x boundary contents; nf9: mixed stream with about 12 % "
-            "malformed datagrams; non-trivial = the implementation produced a non-error result; distinct = distinct case line",
-    "assumptions": ["information model = the table regenerated from ipfix/rfc5102_model.go (lookupElem is opaque in the proofs)",
+            "malformed datagrams; non-trivial = the implementation produced a non-error result; distinct = distinct case line. "
+            "e2e-startup (8 quick / 64 thorough + the witnesses of corpus/C06): the race build of the binary started with an "
+            "ipfix.elements file that adds one extension element, a NetFlow v9 exporter whose template uses it, the IPFIX listener "
+            "switched off (three in four) or on: the element must be published with the file's type (F34)",
+    "assumptions": ["information model = the table regenerated from ipfix/rfc5102_model.go (lookupElem is opaque in the proofs); that the "
+                    "collector decodes with the INSTALLED model whenever the NetFlow v9 listener is on is C20's obligation "
+                    "gen_load_guard_covers_readers and the e2e start-ups (F34)",
                     "the template cache is modelled as one map keyed by the 32-bit FNV-1 hash (finding K1: colliding keys share an entry)"],
 }
 META = {
